@@ -309,4 +309,20 @@ Definition new_p2 : claims :=
      c_swc := Some []; c_nosw := None; c_nonce := None; c_inst := None; c_vsi := None;
      c_canon := prof2 cfg |}.
 
+
+(** setter calls as first-class operations, and histories of them *)
+Inductive sop :=
+| OClient (v : Z) | OLc (v : N) | OImpl (v : bytes) | OBoot (v : bytes) | OCert (v : bytes)
+| ONonce (v : bytes) | OInst (v : bytes) | OVsi (v : bytes) | OSwc (v : option (list swc)).
+
+Definition apply_sop (c : claims) (o : sop) : claims * res unit :=
+  match o with
+  | OClient v => set_client c v | OLc v => set_lc c v | OImpl v => set_impl c v | OBoot v => set_boot c v
+  | OCert v => set_cert c v | ONonce v => set_nonce c v | OInst v => set_inst c v | OVsi v => set_vsi c v
+  | OSwc v => set_swc c v
+  end.
+
+Definition run_sops (ops : list sop) (c : claims) : claims :=
+  fold_left (fun c o => fst (apply_sop c o)) ops c.
+
 End WithCfg.
